@@ -72,7 +72,7 @@ func recvPath(p string) func(recv ssa.Value, args []ssa.Value) bool {
 }
 
 func init() {
-	register("C16", []string{"./notaryserver", "./cache", "./dataprovider", "./transaction"},
+	register("C16", []string{"./notaryserver", "./cache", "./dataprovider", "./transaction", "./wallet"},
 		"Structural necessary conditions of the notary's authorisation rules: in every handler the protected effect (seal into the ledger, store as awaiting, remove from awaiting, read waiting list / history / balance) lies behind the success edge of the "+
 			"right check applied to the same request fields — issuer signature for proposals, the contract/non-contract split, issuer+receiver signatures and a successful receiver-keyed removal for confirmation, a signature of the removed hash by the removing address for rejection, "+
 			"the server-issued unexpired challenge plus a signature under the queried address for reads — and ValidateData accepts only an existing, unexpired, byte-equal challenge. At-most-once under concurrent duplicates beyond the atomic removal (C17) and the ledger index (C03) is not decided.",
@@ -331,4 +331,9 @@ func runC16(w *World, r *Report) {
 		rnd := len(f.calls("crypto/rand.Read")) == 1
 		r.check(ok && rnd, "challenge-issue", "dataprovider.Cache.ProvideData", w.Pos(f.fn.Pos()), "challenge = crypto/rand bytes stored under the address", fmt.Sprintf("stored-under-address=%v random=%v", ok, rnd))
 	}
+
+	// every authorisation check above ends in wallet.Helper.Verify: it must itself be genuine for the address given
+	// (an "already verified" shortcut that forgets the address lets one party's signature stand in for another's)
+	r.rule("signature-check-is-genuine", "wallet.Helper.Verify reports success only behind the digest equality, the decoding of the given address and ed25519.Verify under that key", 1)
+	walletVerifyChain(w, r, "signature-check-is-genuine")
 }
